@@ -2155,7 +2155,9 @@ def _config_str(
     if _REGISTRY[selector].is_method:
       method_name = parts.pop(0)
       parts[0] += f'.{method_name}'  # parts[0] is the class name.
-    return parts
+    # Break ties between keys that differ only in letter case with the key
+    # itself, so that the output doesn't depend on the order of the bindings.
+    return parts, key_tuple[0]
 
   import_manager = ImportManager(_IMPORTS)
   if import_manager.dynamic_registration:
